@@ -84,7 +84,7 @@ static void barrier_prog()
     int dropper = pmc_choose(P + 1, 0) - 1;                     // participant that drops in phase 0 (-1: nobody)
     int late = (OS && NFORMS > 2) ? pmc_choose(2, 0) : 0;       // the last participant arrives 1 ms late: a busy-wait of 100 us expires first
     for (int k = 0; k < PHASES; ++k) b.expected[k] = (k == 0 || dropper < 0) ? P : P - 1;
-    auto completion = [] { ++g_bar->completions; };
+    auto completion = [] { pmc_point("in-completion"); ++g_bar->completions; };    // a completion function has a duration: nobody may be released while it runs
     auto& bar = *new pika::barrier<decltype(completion)>(P, completion);
     if (PHASE0)
     {
